@@ -27,7 +27,7 @@ impl Connection {
     ///  8 pto_count  9 close flag  10 sum of sizes of tracked sent packets of the current path generation
     ///  11 number of tracked ack-eliciting sent packets of the current path generation
     ///  12 pto(Data) in us  13 idle timeout us (-1 none)  14 prev_path present
-    ///  15 path.challenge present  16 loss_probes summed over spaces  17 permit_idle_reset
+    ///  15 path.challenge present  16 loss_probes summed over spaces that still have keys (and Data)  17 permit_idle_reset
     ///  18.. 26 timer deadlines in us relative to `base` (-1 unset), in `Timer::VALUES` order
     ///  27 highest space (0 Initial, 1 Handshake, 2 Data) 28 total tracked sent packets (all spaces)
     ///  29 path_responses pending?  30 app_limited 31 error recorded?
@@ -45,7 +45,10 @@ impl Connection {
         let mut probes = 0i128;
         for sp in [SpaceId::Initial, SpaceId::Handshake, SpaceId::Data] {
             let space = &self.spaces[sp];
-            probes += space.loss_probes as i128;
+            // a discarded space keeps a stale `loss_probes` count that can never be sent
+            if sp == SpaceId::Data || space.crypto.is_some() {
+                probes += space.loss_probes as i128;
+            }
             for (_, p) in space.sent_packets.range(0..u64::MAX) {
                 tracked += 1;
                 if p.path_generation == self.path.generation() {
